@@ -414,12 +414,15 @@ for _c, _k, _s in (('SquareLoss', 'Square', False), ('NormalLoss', 'Normal', Tru
 # ---------------------------------------------------------------------------------------------
 # the constructor: what is stored, in which order
 
-def make_init(single_column):
-    @contract('C06/BaseLoss.__init__/%s' % ('one observed state' if single_column else 'several observed states'), ['C06', 'C07'], 'pygom.loss.base_loss:BaseLoss.__init__',
-              replay=replay_c06)
+def make_init(single_column, name_form='list'):
+    @contract('C06/BaseLoss.__init__/%s%s' % ('one observed state' if single_column else 'several observed states',
+                                              {'list': '', 'str': '/name given as a str', 'none': '/state_name=None (every state observed)'}[name_form]),
+              ['C06', 'C07'], 'pygom.loss.base_loss:BaseLoss.__init__', replay=replay_c06)
     def init(vc):
         n, nS, nP = vc.int('n', ge=1), vc.int('nS', ge=1), vc.int('nP', ge=1)
         p = 1 if single_column else vc.int('p', ge=2)
+        if name_form == 'none':
+            vc.require('state_name=None: one data column per model state', to_num(nS) == to_num(p))
         t = vc.array('t', (n,))
         y = vc.array('y', (n,) if single_column else (n, p))
         x0 = vc.array('x0', (nS,))
@@ -438,6 +441,8 @@ def make_init(single_column):
                     return nS
                 if name == 'integrate2':
                     return Builtin('integrate2', lambda it_, a, k: log.setdefault('integrate2', a[0]) and SArr((n + 1, nS), lambda o: z3.RealVal(0)) or SArr((n + 1, nS), lambda o: z3.RealVal(0)))
+                if name == '_iterStateList':
+                    return Builtin('_iterStateList', lambda it_, a, k: SList(nS, lambda q: SName(vc.fn('declared_state', I, I)(q))))
                 if name == 'get_state_index':
                     def gsi(it_, a, k):
                         log['gsi'] = a[0]
@@ -467,14 +472,24 @@ def make_init(single_column):
         vc.summary(LOSS + '_setLossType', slt)
         cls = vc.cls('pygom.loss.base_loss:BaseLoss')
         sw = vc.array('state_weight', (n,) if single_column else (p,))
-        out = vc.call(cls, theta, Ode(), x0, t0, t, y, names, sw)
+        arg = {'list': names, 'str': names[0] if single_column else None, 'none': None}[name_form]
+        out = vc.call(cls, theta, Ode(), x0, t0, t, y, arg, sw)
         vc.ensure('the constructor returns', out.returned)
         if not out.returned:
             return
         obj = out.value
         f = obj.fields
         q = z3.Int('q_k')
-        vc.ensure('the state indices are looked up for the observed names, in the order given', log.get('gsi') is f.get('_stateName') and (f['_stateName'] is names or f['_stateName'] == names))
+        if name_form == 'list':
+            vc.ensure('the state indices are looked up for the observed names, in the order given', log.get('gsi') is f.get('_stateName') and (f['_stateName'] is names or f['_stateName'] == names))
+        elif name_form == 'str':
+            sn = f.get('_stateName')
+            vc.ensure('a single name given as a str is looked up as the one-element list of that name', log.get('gsi') is sn and isinstance(sn, list) and len(sn) == 1 and sn[0] is names[0])
+        else:
+            sn = f.get('_stateName')
+            dn = vc.fn('declared_state', I, I)
+            vc.ensure('state_name=None: the names looked up are the declared states, in declaration order',
+                      allof(log.get('gsi') is sn and isinstance(sn, SList), z3.And(to_num(sn.length) == nS, z3.ForAll([q], z3.Implies(z3.And(q >= 0, q < nS), sn.element(q).term == dn(q)))) if isinstance(sn, SList) else False))
         si = f.get('_stateIndex')
         vc.ensure('_stateIndex[j] = index of the j-th named state', allof(isinstance(si, SList), z3.And(to_num(si.length) == p, z3.ForAll([q], z3.Implies(z3.And(q >= 0, q < p), si.element(q) == six(q)))) if isinstance(si, SList) else False))
         ot, tt = f.get('_observeT'), f.get('_t')
@@ -502,6 +517,9 @@ def make_init(single_column):
 
 make_init(True)
 make_init(False)
+make_init(True, 'str')
+make_init(False, 'none')
+make_init(True, 'none')
 
 
 @contract('C06/_unrollParam/target_param', ['C06', 'C07'], LOSS + '_unrollParam', replay=replay_c06)
@@ -537,7 +555,32 @@ def unroll_param(vc):
     out = vc.call(vc.func(F), obj, vals)
     vc.ensure('returns normally', out.returned)
     d = obj.fields['_theta']
-    vc.ensure('the holder is updated in place', d is D0)
     vc.ensure('theta[i] is stored under target_param[i] for every i', z3.ForAll([a], z3.Implies(z3.And(a >= 0, a < L), z3.And(d.dom(pn(a), 0), d.val(pn(a), 0) == vals.get((a,))))))
     vc.ensure('entries of parameters that are not targeted are kept', z3.ForAll([n_], z3.Implies(z3.Not(ment(n_)), z3.And(d.dom(n_, 0) == z3.Select(s0['Dom'], n_, 0), d.val(n_, 0) == z3.Select(s0['Val'], n_, 0)))))
+    vc.canary('canary: reachable', z3.BoolVal(False))
+
+
+@contract('C06/_unrollParam/all-parameters', ['C06', 'C07'], LOSS + '_unrollParam', replay=replay_c06)
+def unroll_param_all(vc):
+    """no target_param, array holder: entry i of the holder becomes theta[i] for every i, in place (the holder object is the one
+    _getSolution hands to the model)"""
+    L = vc.int('L', ge=1)
+    vals = vc.array('values', (L,))
+    hold = vc.array('theta_holder', (L,))
+    cls = vc.cls('pygom.loss.base_loss:BaseLoss')
+    obj = ObjVal(cls, {'_targetParam': None, '_theta': hold})
+    F = LOSS + '_unrollParam'
+    q = z3.Int('up_q')
+
+    def inv(view, i):
+        h = obj.fields['_theta']
+        return [('the first i entries hold the new values', z3.And(to_num(h.shape[0]) == L, z3.ForAll([q], z3.Implies(z3.And(q >= 0, q < i), h.get((q,)) == vals.get((q,))))))]
+
+    def inplace(it, view):
+        obj.fields['_theta'].havoc_inplace(it, 'theta_cur')
+    vc.loop(F, 3, inv, inplace=(inplace,))      # loops 0/1: target_param forms, loop 2: dict holder, loop 3: array holder
+    out = vc.call(vc.func(F), obj, vals)
+    vc.ensure('returns normally', out.returned)
+    h = obj.fields['_theta']
+    vc.ensure('holder[i] == theta[i] for every i', z3.ForAll([q], z3.Implies(z3.And(q >= 0, q < L), h.get((q,)) == vals.get((q,)))))
     vc.canary('canary: reachable', z3.BoolVal(False))
